@@ -16,6 +16,7 @@ its shard under every mode and prints one JSON line per case:
 A canonical table is {"out": output-domain string, "shape": event shape, "vals": [[str…] per point of
 the expression's sorted inputs]}; values are exact (Fractions printed as p/q, or inf/-inf/nan).
 """
+import collections
 import hashlib
 import itertools
 import json
@@ -158,6 +159,8 @@ def gen_seq_lazy(rng):
         b = ("binary", scale, b, t)
         names = [t[1][0][0]]
     rv = [n for n in names if rng.random() < 0.6] or [rng.choice(names)]
+    while len(rv) > 1 and int(np.prod([free[n] for n in rv if n in free] or [1])) > 8:
+        rv = rv[:-1]            # sequential_reduce enumerates the product of the reduced sizes: keep it small
     xs = [-1.0, 0.0, 0.5, 2.0, 3.0] if signed else [0.0, 0.5, 2.0, 3.0]
     return ctx, ("reduce", op, b, tuple(sorted(rv)), ()), {"x": rng.choice(xs)}
 
@@ -536,7 +539,7 @@ def gen_subs_grid(rng, k, rot):
 # ---------------------------------------------------------------------------------------------
 
 DUP_SHAPES = ["stack-aab", "stack-baa", "stack-aba", "cat-aab", "sum-aab", "prod-aab", "stack-aab-in-stack",
-              "max-aab", "sub-aab", "sub-baa"]
+              "max-aab", "sub-aab", "sub-baa", "lse-aab", "lse-aba"]
 DUP_WRAPS = ["subs-both", "plain", "subs-swap", "reduce"]
 DUP_GRID = [(wr, sh) for wr in DUP_WRAPS for sh in DUP_SHAPES]
 
@@ -573,6 +576,10 @@ def gen_dup_children(rng, k, rot):
         V = ("binary", "mul", ("binary", "mul", a, a), b)
     elif shape == "max-aab":
         V = ("binary", "max", ("binary", "max", a, a), b)
+    elif shape == "lse-aab":
+        V = ("binary", "logaddexp", ("binary", "logaddexp", a, a), b)
+    elif shape == "lse-aba":
+        V = ("binary", "logaddexp", ("binary", "logaddexp", a, b), a)
     elif shape == "sub-aab":
         V = ("binary", "sub", ("binary", "sub", a, a), b)
     elif shape == "sub-baa":
@@ -737,52 +744,117 @@ def gen_shared_reduction(rng, k, rot):
     return ctx, r, env
 
 
+# ---------------------------------------------------------------------------------------------
+# the same operand twice under EVERY associative op (flattened by normalize)
+# ---------------------------------------------------------------------------------------------
+
+ASSOC_OPS = ["logaddexp", "xor", "add", "mul", "max", "min", "and", "or"]
+REPEAT_SHAPES = ["(t.u).t", "t.t", "t.(u.t)", "(t.u).(t.u)", "((t.u).t).u", "open:(t.u).t", "open:t.t", "red:(s.u).s"]
+REPEAT_GRID = [(sh, o) for sh in REPEAT_SHAPES for o in ASSOC_OPS]
+
+
+def gen_repeat_operand(rng, k, rot):
+    """⊕(⊕(t, u), t) and friends for every associative op funsor has — add, mul, max, min, logaddexp (rounded),
+    and_, or_, xor (Bint[2] data) — with `t` ONE hash-consed object (a leaf or a compound built twice from the
+    same arrays).  `open:` variants keep a free Variable in t, so the eager build stays lazy (it goes through
+    normalize) and is compared point by point with the deferred builds; `red:` makes t a reduction."""
+    shape, o = REPEAT_GRID[k] if k < 2 * len(ASSOC_OPS) else REPEAT_GRID[(k + rot) % len(REPEAT_GRID)]
+    ctx = gen_ctx(rng)
+    names = list(ctx)
+    bitwise = o in ("and", "or", "xor")
+    env = {}
+
+    def tensor(ns=None):
+        ns = [n for n in names if rng.random() < 0.6] if ns is None else ns
+        if bitwise:
+            return gen_terms.gen_tensor(rng, ctx, 2, names=ns)
+        tt = gen_terms.gen_tensor(rng, ctx, "real", names=ns)
+        if o in ("logaddexp",):
+            tt = tt[:4] + (np.abs(tt[4]),)
+        return tt
+    inner_op = o if bitwise else rng.choice(["add", o])
+    t_ = tensor() if rng.random() < 0.4 else ("binary", inner_op, tensor(), tensor())
+    u_ = tensor() if rng.random() < 0.5 else ("binary", inner_op, tensor(), tensor())
+    if shape.startswith("open:"):
+        if bitwise:
+            t_ = ("binary", o, ("var", "v", 2), t_)
+        else:
+            t_ = ("binary", "add", ("var", "x", Real), t_)
+            env["x"] = rng.choice([0.0, 0.5, 2.0, 3.0])
+        shape = shape[5:]
+    if shape.startswith("red:"):
+        i = at_least2(ctx, rng.choice(names))
+        body = tensor(sorted(set([i] + [n for n in names if rng.random() < 0.5])))
+        t_ = ("reduce", o if not bitwise else rng.choice(["or", "and", "xor"]), body, (i,), ()) if not bitwise else \
+            ("reduce", "add", gen_terms.gen_tensor(rng, ctx, "real", names=[i]), (i,), ())
+        if bitwise:          # a reduction of Bint[2] data stays integer only for and/or: keep the repeated operand a compound
+            t_ = ("binary", o, tensor(), tensor())
+        shape = "(t.u).t"
+    B = lambda a_, b_: ("binary", o, a_, b_)
+    if shape == "(t.u).t":
+        r = B(B(t_, u_), t_)
+    elif shape == "t.t":
+        r = B(t_, t_)
+    elif shape == "t.(u.t)":
+        r = B(t_, B(u_, t_))
+    elif shape == "(t.u).(t.u)":
+        r = B(B(t_, u_), B(t_, u_))
+    else:
+        r = B(B(B(t_, u_), t_), u_)
+    if o == "logaddexp":
+        env["__approx__"] = 1.0
+    if o == "mul" and carrier_risky(r):
+        r = to_nonneg(r)
+    return ctx, r, env
+
+
 def cases(base_seed, n):
     """The seeded case list: [(ctx, recipe, family, env)]; env binds the free real inputs; the pseudo-binding
-    "__approx__" marks expressions with inexact ops (compared after rounding)."""
+    "__approx__" marks expressions with inexact ops (compared after rounding).  Families by idx mod 12."""
     rng = random.Random(f"C03-cases-{base_seed}")
     rot = rng.randrange(10 ** 6)
     out = []
-    grid0 = 0
-    user0 = 0
-    subs0 = 0
-    shared0 = 0
-    align0 = 0
-    dup0 = 0
+    cnt = collections.Counter()
     for idx in range(n):
-        if idx % 5 == 4 and idx % 10 != 9:
+        m = idx % 12
+        if m == 4:
             ctx, recipe = gen_sum_product(rng)
             out.append((ctx, recipe, "sum-product", {}))
-        elif idx % 10 == 7:
-            ctx, recipe = gen_dup_children(rng, dup0, rot)
-            dup0 += 1
+        elif m == 7:
+            ctx, recipe = gen_dup_children(rng, cnt["dup"], rot)
+            cnt["dup"] += 1
+            env = {"__approx__": 1.0} if "logaddexp" in recipe_ops(recipe) else {}
             if carrier_risky(recipe):
                 recipe = to_nonneg(recipe)
-            out.append((ctx, recipe, "dup-children(variadic node lists one child twice)", {}))
-        elif idx % 10 == 2:
+            out.append((ctx, recipe, "dup-children(variadic node lists one child twice)", env))
+        elif m == 2:
             ctx, recipe, env = gen_seq_lazy(rng)
             out.append((ctx, recipe, "seq-lazy", env))
-        elif idx % 10 == 0:
-            ctx, recipe = gen_user_term(rng, user0, rot)
-            user0 += 1
+        elif m == 0:
+            ctx, recipe = gen_user_term(rng, cnt["user"], rot)
+            cnt["user"] += 1
             out.append((ctx, recipe, "user-terms(make_funsor)", {}))
-        elif idx % 10 == 9:
-            ctx, recipe, env = gen_shared_reduction(rng, shared0, rot)
-            shared0 += 1
+        elif m == 9:
+            ctx, recipe, env = gen_shared_reduction(rng, cnt["shared"], rot)
+            cnt["shared"] += 1
             out.append((ctx, recipe, "shared-reduction(one reduced sub-term used twice)", env))
-        elif idx % 10 == 8:
-            ctx, recipe = gen_align_noncomm(rng, align0, rot)
-            align0 += 1
+        elif m == 10:
+            ctx, recipe, env = gen_repeat_operand(rng, cnt["repeat"], rot)
+            cnt["repeat"] += 1
+            out.append((ctx, recipe, "repeat-operand(every associative op)", env))
+        elif m == 8:
+            ctx, recipe = gen_align_noncomm(rng, cnt["align"], rot)
+            cnt["align"] += 1
             out.append((ctx, recipe, "align-noncommutative(lazy Align operands of sub/truediv/pow/comparisons)", {}))
-        elif idx % 10 == 3:
-            ctx, recipe = gen_subs_grid(rng, subs0, rot)
-            subs0 += 1
+        elif m == 3:
+            ctx, recipe = gen_subs_grid(rng, cnt["subs"], rot)
+            cnt["subs"] += 1
             if carrier_risky(recipe):
                 recipe = to_nonneg(recipe)
             out.append((ctx, recipe, "subs-grid(overlapping keys/values)", {}))
-        elif idx % 5 in (1, 3):
-            ctx, recipe = gen_cnf_grid(rng, grid0, rot)
-            grid0 += 1
+        elif m in (1, 6, 11):
+            ctx, recipe = gen_cnf_grid(rng, cnt["cnf"], rot)
+            cnt["cnf"] += 1
             used = recipe_ops(recipe)
             if used & INEXACT:
                 out.append((ctx, recipe, "cnf-grid:inexact(rounded, reference eager)", {"__approx__": 1.0}))
